@@ -52,6 +52,7 @@ def run(ctx):
     ctx.rule("C05.R2", "pattern functions: no input register clobbered, no garbage read, no dead initialising move, returned register written", floor=300)
     ctx.rule("C05.R3", "calling-convention skeleton: argument registers marked used before the call, call declares clobbers, return register marked defined after it; entry defines argument registers; exit keeps the return register live", floor=20)
     ctx.rule("C05.R4", "save-set partition: every allocatable register is either declared clobbered by calls or saved by the callee", floor=40)
+    phi_lowering(ctx, "C05.R6")
     ctx.rule("C05.R5", "riscv large immediates: lui part incremented exactly when bit 11 of the value is set; addi takes the low 12 bits", floor=3)
     project = ctx.project
     dump = ctx.isa()
@@ -255,3 +256,68 @@ def _partition(ctx, project, dump, arch, rel, cls, gcall):
     for r in alloc:
         ok = r in clobbers or r in callee or (arch, r) in PARTITION_OK
         ctx.ob("C05.R4", site, "allocatable register %s is declared clobbered by calls or saved by the callee" % r, ok, construct="partition:%s:%s" % (arch, r), detail="clobbers %s; callee-saved %s" % (clobbers, callee))
+
+
+def phi_lowering(ctx, rid):
+    """Phi elimination of the target independent code generator (shared by every back-end): the copies into the
+    phi registers of a successor form a PARALLEL copy, and they are emitted at the end of the predecessor."""
+    from ..core import last_name
+    from .. import sym
+    D = "ppci/codegen/irdag.py"
+    G = "ppci/codegen/codegen.py"
+    ctx.rule(rid, "phi lowering: every incoming value is first copied to a fresh temporary and only then into the phi register (parallel copy); an edge whose phi is still needed on another way out of the block gets its own block before instruction selection (no lost copy)", floor=8)
+    cp = ctx.fn(D, "SelectionGraphBuilder.copy_phis_of_successors")
+    site = D + ":SelectionGraphBuilder.copy_phis_of_successors"
+    outer = [l for l in cp.body if isinstance(l, ast.For) and norm(l.iter).endswith(".successors")]
+    ctx.ob(rid, site, "two separate passes over the successors' phis: all temporaries are written before any phi register", len(outer) == 2, construct="two-phases", detail="%d loops over successors" % len(outer))
+    if len(outer) == 2:
+        p1, p2 = outer
+        inner1 = [l for l in ast.walk(p1) if isinstance(l, ast.For) and norm(l.iter).endswith(".phis")]
+        inner2 = [l for l in ast.walk(p2) if isinstance(l, ast.For) and norm(l.iter).endswith(".phis")]
+        ok = bool(inner1) and not any(isinstance(x, (ast.If, ast.Continue, ast.Break)) for x in ast.walk(p1))
+        ctx.ob(rid, site, "phase 1 gives EVERY phi input a temporary, unconditionally (an input may itself be a phi register that another copy of the same jump overwrites)", ok, construct="temporary-for-every-input",
+               detail="; ".join(" ".join(norm(x.test).split())[:70] for x in ast.walk(p1) if isinstance(x, ast.If)))
+        nv = [n for n in ast.walk(p1) if isinstance(n, ast.Assign) and isinstance(n.value, ast.Call) and last_name(n.value) == "new_vreg"]
+        mv = [c for c in ast.walk(p1) if isinstance(c, ast.Call) and last_name(c) == "new_node" and c.args and try_const_(c.args[0]) == "MOV"]
+        ok = len(nv) == 1 and len(mv) == 1 and any(k.arg == "value" and norm(k.value) == norm(nv[0].targets[0]) for k in mv[0].keywords) and any(isinstance(c, ast.Call) and last_name(c) == "chain" for c in ast.walk(p1))
+        ctx.ob(rid, site, "the temporary is a fresh virtual register written by a chained MOV of the incoming value", ok, construct="temporary-fresh")
+        gv = [n for n in ast.walk(p1) if isinstance(n, ast.Assign) and isinstance(n.value, ast.Call) and last_name(n.value) == "get_value" and "ir_block" in norm(n.value)]
+        ctx.ob(rid, site, "the incoming value is the phi's value for THIS block", bool(gv) and norm(gv[0].value).endswith(".get_value(ir_block)"), construct="value-of-this-edge")
+        mv2 = [c for c in ast.walk(p2) if isinstance(c, ast.Call) and last_name(c) == "new_node" and c.args and try_const_(c.args[0]) == "MOV"]
+        env2 = sym.single_assign_env(cp)
+        dst = [norm(k.value) for c in mv2 for k in c.keywords if k.arg == "value"]
+        pm = [n for n in ast.walk(p2) if isinstance(n, ast.Assign) and "phi_map[" in norm(n.value)]
+        ok = len(mv2) == 1 and bool(pm) and dst == [norm(pm[0].targets[0])] and not any(isinstance(x, (ast.Continue, ast.Break)) for x in ast.walk(p2)) and bool(inner2)
+        ctx.ob(rid, site, "phase 2 moves every temporary into the register of its phi (function_info.phi_map), for every phi", ok, construct="phase2-into-phi-register")
+        vm = [n for n in ast.walk(p1) if isinstance(n, ast.Assign) and isinstance(n.targets[0], ast.Subscript) and norm(n.targets[0].value) == "val_map"]
+        rd = [n for n in ast.walk(p2) if isinstance(n, ast.Subscript) and isinstance(n.ctx, ast.Load) and norm(n.value) == "val_map"]
+        ctx.ob(rid, site, "phase 2 reads the temporary recorded by phase 1 under the same key", len(vm) == 1 and len(rd) == 1 and norm(vm[0].targets[0].slice) == norm(rd[0].slice), construct="same-key")
+    gf = ctx.fn(G, "CodeGenerator.generate_function")
+    sp = [c for c in calls_in(gf, "_split_phi_edges")]
+    sel = [c for c in calls_in(gf, "select_and_schedule")]
+    ctx.ob(rid, G + ":CodeGenerator.generate_function", "phi edges are split before instruction selection", len(sp) == 1 and len(sel) == 1 and sp[0].lineno < sel[0].lineno and not sym.conjuncts(sp[0], gf, {}), construct="split-before-selection")
+    se = ctx.fn(G, "CodeGenerator._split_phi_edges")
+    site = G + ":CodeGenerator._split_phi_edges"
+    txt = norm(se)
+    ch = [c for c in calls_in(se, "change_target")]
+    ri = [c for c in calls_in(se, "replace_incoming")]
+    jm = [c for c in ast.walk(se) if isinstance(c, ast.Call) and norm(c.func) == "ir.Jump"]
+    ab = [c for c in calls_in(se, "add_block")]
+    ok = len(ch) == 1 and len(ri) == 1 and len(jm) == 1 and len(ab) == 1
+    if ok:
+        succ, edge = norm(ch[0].args[0]), norm(ch[0].args[1])
+        blk = norm(ch[0].func.value)
+        ok = norm(jm[0].args[0]) == succ and norm(ri[0].func.value) == succ and norm(ri[0].args[0]) == blk and norm(ri[0].args[1]) == "[%s]" % edge and norm(ab[0].args[0]) == edge
+    ctx.ob(rid, site, "the edge block jumps to the successor, the predecessor is retargeted to it and the successor's phis take their value from it", ok, construct="edge-block-wiring")
+    cont = [n for n in ast.walk(se) if isinstance(n, ast.If) and any(isinstance(b, ast.Continue) for b in n.body)]
+    tests = [" ".join(norm(n.test).split()) for n in cont]
+    ok = any("< 2" in t or "<= 1" in t for t in tests)
+    ctx.ob(rid, site, "only blocks with at least two distinct successors are considered (a single successor needs no edge block)", ok, construct="multi-successor-only", detail=str(tests))
+    live = [t for t in tests if "used_by" in t]
+    ok = bool(live) and "isinstance(user, ir.Phi)" in live[0] and "user.block is not" in live[0] and live[0].startswith("not any(")
+    ctx.ob(rid, site, "an edge is left alone only if no phi of the successor is used by another phi or outside the successor block (then its register is dead on the other ways out)", ok, construct="skip-only-when-dead", detail=str(live))
+
+
+def try_const_(n):
+    from ..core import try_const
+    return try_const(n)
